@@ -9,3 +9,4 @@ CONSTANTS
   FAULTS = 2
   FLAGFIRST = FALSE
   DELAYMS = 100
+  SKIPREDUNDANT = FALSE
